@@ -148,7 +148,16 @@ class Tokenizer:
 
             # update captured lines
             if tok.start[0] not in lines:
-                lines[tok.start[0]] = tok.line if is_indented else tok.line[tok.start[1] :]
+                line = tok.line
+                if tok.end[0] > tok.start[0]:
+                    # the line of a multi-line token holds several physical lines
+                    line = line.splitlines(keepends=True)[0]
+                # one-line form: the text starts after the colon, on the first captured line only
+                lines[tok.start[0]] = line if (is_indented or lines) else line[tok.start[1] :]
+            if tok.end[0] > tok.start[0]:
+                # a multi-line token (string) also covers the lines between its first and its last one
+                for i, text in enumerate(tok.string.splitlines(keepends=True)[1:-1], 1):
+                    lines.setdefault(tok.start[0] + i, text)
 
         string = "".join(lines.values())
         if is_indented:
